@@ -960,6 +960,13 @@ class CONSEngine(Engine):
                     self.nt.add("commit-after-processor-failure")
                     self.note("C03.commit-not-ahead", "C03.commit-ahead/past-%s-invocation" % bad[0].state,
                               "OffsetCommit carries offset %d although invocation #%d (offsets %r) %s" % (o, bad[0].no, [m[0] for m in bad[0].msgs][:4], "failed" if bad[0].state == "failed" else "has not completed successfully"))
+            # ... and the committed number is the offset the broker stores for the last message processed (messages are told apart by
+            # their unique values): committing a larger number skips what the log holds in between after a restart
+            last = [i for i in self.invocations if i.state == "ok" and i.evseq <= rec["evseq"] and i.msgs and i.msgs[-1][0] == o]
+            if last and last[-1].msgs[-1][2] is not None:
+                truth = [r["offset"] for b in self.part.batches for r in b.records if r["value"] == last[-1].msgs[-1][2]]
+                if truth and o > truth[0]:
+                    self.note("C03.commit-not-ahead", "C03.commit-ahead/of-the-stored-offset", "OffsetCommit carries offset %d for the message %.24r, which the broker stores at offset %d" % (o, last[-1].msgs[-1][2], truth[0]))
             # generation / member of a plain consumer
             req = rec["req"]
             if (req["generation"], req["member_id"]) != (-1, ""):
@@ -1191,6 +1198,48 @@ class CONSEngine(Engine):
                 kind = "too-early" if d < want else "too-late"
                 self.note("C14.backoff", "C14.retry-delay/%s" % kind, "after consecutive failure #%d (%s error %d delivered t=%.4f) the next request was issued %.6fs later; expected min(%.3f*%.5f^%d, %.3f)=%.6f" % (
                     k, rec["api"], code, rep["deliv_time"], d, cfg["retry_init"], factor, k - 1, cfg["retry_max"], want))
+
+        self._check_gave_up_within_budget()
+
+    def _check_gave_up_within_budget(self):
+        """with an attempt limit N >= 2 the run may fail on a retriable error only after N consecutive failed attempts: a failure that
+        follows a request known to have succeeded by fewer than N failed ones means the budget was not reset by that success (C02: the
+        stream then simply ends although nothing unrecoverable happened; C08: 'resume ... within the retry budget')"""
+        from afkak.common import BrokerResponseError
+
+        N = self.config["max_attempts"]
+        run = self.runs[-1] if self.runs else None
+        if not N or N < 3 or run is None or run.get("_budget_checked") or run.get("watch") is None or run["watch"].state == "pending":
+            return
+        run["_budget_checked"] = True
+        if run["watch"].state != "err" or run.get("stopped_evseq") is not None or run.get("shutdown_watch") is not None:
+            return
+        if any(i.run is run and i.state == "failed" for i in self.invocations):
+            return
+        f = run["watch"].value
+        if not f.check(BrokerResponseError) or getattr(f.value, "errno", None) in (None, 0, 1):
+            return
+        mine = [r for r in self._creqs if r["run"] is run and r["inc"] == self.incarnation]
+        k = 0
+        for r in reversed(mine):
+            oc = r.get("outcome")
+            if oc is None or not r.get("timely", True):
+                return  # a request of unknown fate in the chain: no verdict
+            if oc == 0:
+                break
+            k += 1
+        else:
+            return  # no request of this run known to have succeeded before the chain
+        if k == 0 or mine[-1].get("outcome") != f.value.errno:
+            return
+        # (afkak counts the successful request that precedes the failures as the first attempt of the new series: after a success the
+        # unchanged tree gives up at the (N-1)th consecutive failure, which C14's "no more than N" allows; fewer than that is a budget
+        # that was not reset)
+        if k < N - 1:
+            self.nt.add("gave-up-within-budget")
+            detail = "run #%d failed with %s after %d consecutive failed request(s) that followed a successful one; request_retry_max_attempts=%d" % (run["no"], f.type.__name__, k, N)
+            self.note("C02.completeness", "C02.gave-up-within-the-retry-budget", detail)
+            self.note("C08.recovery", "C08.consumer-gave-up-within-the-retry-budget", detail)
 
     # ------------------------------------------------------------------ finish
     def _caught_up(self):
